@@ -494,6 +494,67 @@ def _shared(ctx, counts) -> list:
     return [r08_4(ctx, counts), r11_2(ctx, counts)]
 
 
+def r07_5(ctx, counts) -> RuleResult:
+    """value comparisons are exact: a tolerance only between two xs:float values"""
+    from ..engine.cfg import CFG
+    from ..engine.dataflow import branch_facts
+    model: Model = ctx.model
+    res = RuleResult(
+        'R07.5', 'NO-TOLERANCE-ON-DOUBLES',
+        'eq/ne/lt/le/gt/ge order the value space exactly; math.isclose is not an equivalence '
+        '(not transitive) and declares 1.00000001e0 and 1.00000002e0 equal. The package stores '
+        'xs:float values with double precision and compares two of them with a relative '
+        'tolerance; that emulation must not reach xs:double, xs:decimal or xs:integer operands: '
+        'in the evaluate functions bound to the comparison operators every call of math.isclose, '
+        'or of a helper whose body calls it (numeric_equal, numeric_not_equal), is dominated by a '
+        'branch fact that all operands are instances of the xs:float class (Float), not of '
+        'float / DoubleProxy (which every xs:double satisfies).')
+    tolerant = {f.name for f in model.all_functions()
+                if f.cls is None and any(isinstance(c, ast.Call) and dotted(c.func) == 'math.isclose'
+                                         for c in walk_local(f.node))}
+    funcs: dict[FuncInfo, set[str]] = {}
+    for rec in ctx.reg.all_records():
+        if rec.symbol in ('eq', 'ne', 'lt', 'le', 'gt', 'ge', '=', '!=', '<', '<=', '>', '>='):
+            ref = rec.method('evaluate')
+            if ref is not None and ref.func is not None and ref.origin != 'class':
+                funcs.setdefault(ref.func, set()).add(rec.symbol)
+    if len(funcs) < 2:
+        raise AnalysisError(f'comparison operator functions located: {len(funcs)} < 2')
+    n = 0
+    for f, syms in sorted(funcs.items(), key=lambda kv: kv[0].key):
+        cfg = CFG(f.node)
+        facts = branch_facts(cfg)
+        calls = [c for c in walk_local(f.node) if isinstance(c, ast.Call) and (
+            dotted(c.func) == 'math.isclose' or dotted(c.func).split('.')[-1] in tolerant)]
+        res.instances.append(f'{f.key} [{"/".join(sorted(syms))}]: {len(calls)} tolerance '
+                             f'comparison(s)')
+        if not calls:
+            res.ok()
+        for c in calls:
+            n += 1
+            holder = None
+            for nd in cfg.nodes:
+                if nd.ast is not None and nd.kind in ('stmt', 'test') and any(
+                        x is c for x in ast.walk(nd.ast.test if isinstance(
+                            nd.ast, (ast.If, ast.While)) else nd.ast)):
+                    holder = nd
+                    break
+            fs = facts[holder.id] if holder is not None else frozenset()
+            only_float = any(fa.startswith('+') and 'isinstance(' in fa and
+                             'Float' in fa and 'DoubleProxy' not in fa and ', float)' not in fa
+                             for fa in fs)
+            if only_float:
+                res.ok()
+            else:
+                res.fail(finding('R07.5', f, c, f'{stmt_text(c)[:30]} on doubles',
+                                 f'`{stmt_text(c)[:60]}` compares with a relative tolerance '
+                                 f'operands that are only known to be floats (facts: '
+                                 f'{sorted(fs)[:2]}): 1.00000001e0 eq 1.00000002e0 and '
+                                 f'0.1e0 + 0.2e0 eq 0.3e0 are true for xs:double'))
+    counts['tolerance_comparisons'] = n
+    return res
+
+
 def run(ctx) -> dict:
     model: Model = ctx.model
     lat = Lattice(model)
@@ -604,7 +665,8 @@ def run(ctx) -> dict:
     counts['dispatch_branches'] = n_branches
     counts['virtual_relations'] = len(lat.virtual)
     return {
-        'results': [res, r07_2(ctx, counts), r07_3(ctx, counts), r07_4(ctx, counts)] + _shared(ctx, counts),
+        'results': [res, r07_2(ctx, counts), r07_3(ctx, counts), r07_4(ctx, counts),
+                    r07_5(ctx, counts)] + _shared(ctx, counts),
         'counts': counts,
         'explanation':
             'Dispatch-order soundness, decided over the class lattice of the source model: in '
